@@ -282,6 +282,7 @@ func crashCase(env *core.Env, idx int, prop, bias string) *core.CaseResult {
 	hdesc["recovery_pool_KB"] = memKB
 	nPoint := 0
 	hung := false
+	tornAtEOF := false
 	check := func(k int, img *rec.Image, tear string, last string) {
 		if hung {
 			return
@@ -301,7 +302,12 @@ func crashCase(env *core.Env, idx int, prop, bias string) *core.CaseResult {
 		}
 		tags := []string{"ctx-" + ctx}
 		if tear != "" {
-			if strings.HasPrefix(last, "WritePage") {
+			if strings.HasPrefix(last, "WritePage") && tornAtEOF {
+				// the page had never been written before (the file ends inside it): nothing of its history is missing from the log,
+				// so this is NOT the listed torn-page-write finding - the restart has to rebuild the page from the log
+				tags = append(tags, "torn-page-write-at-end-of-file")
+				res.Add("torn_page_writes_that_leave_a_short_file", 1)
+			} else if strings.HasPrefix(last, "WritePage") {
 				tags = append(tags, "torn-page-write")
 			} else {
 				tags = append(tags, "torn-log-write")
@@ -377,8 +383,10 @@ func crashCase(env *core.Env, idx int, prop, bias string) *core.CaseResult {
 						continue // C02 quantifies over prefixes of the I/O trace; torn page writes are C01's quantifier (listed finding there)
 					}
 					t := im.Clone()
+					tornAtEOF = im.TornBeyondEOF(e)
 					t.ApplyTorn(e, cut)
 					check(k-1, t, fmt.Sprintf(" torn at %d", cut), eventDesc(e))
+					tornAtEOF = false
 				}
 			}
 		}
